@@ -699,6 +699,9 @@ func RunAs(prop string) func(*gen.Ctx) error {
 			}
 		}
 		if prop == "C07" {
+			if err := inFlightBatches(c, prop, gen.NewRand(c.Seed+41), meta); err != nil {
+				return err
+			}
 			concurrentFresh(c, gen.NewRand(c.Seed+31), meta)
 			nh := apqFreshOracle(meta)
 			meta.Notes = append(meta.Notes, fmt.Sprintf("%d request histories (every history up to length 3 over text / text+own hash / text+another text's hash / hash only x two texts) against a server with the APQ extension: a request that carries its text must be answered as by a fresh server", nh))
